@@ -374,6 +374,47 @@ func c15Functions(p *load.Program, r *oblig.Report) {
 					okAs = q.ReachableFrom(an.Point{B: b.Succs[1], Idx: -1}) == nil && q.ReachableFrom(an.Point{B: b.Succs[0], Idx: -1}) != nil
 				}
 			}
+			// a watched topic that was deleted answers UnknownTopicOrPartition with no partitions: that is a change of
+			// the partition count too, so the count test is reachable on an error edge without passing the
+			// "is it a broker error" triage
+			okGone := false
+			for _, b := range an.Blocks(body) {
+				_, ci := an.IfCond(b)
+				e := ci.Edge(token.NEQ)
+				if e < 0 || !an.IsNilConst(ci.Y) {
+					continue
+				}
+				xv := an.Unwrap(ci.X)
+				if cv := an.CellValueAt(xv); cv != nil {
+					xv = cv
+				}
+				ex, isEx := xv.(*ssa.Extract)
+				if !isEx || ex.Index != 1 {
+					continue
+				}
+				c, isC := ex.Tuple.(*ssa.Call)
+				if !isC || !(c.Call.IsInvoke() && c.Call.Method.Name() == "readPartitions" || c.Call.StaticCallee() != nil && an.RefFuncName(c.Call.StaticCallee()) == "readPartitions") {
+					continue
+				}
+				q := an.PathQuery{Fn: body,
+					Stop: func(i ssa.Instruction) bool {
+						c2, ok := i.(*ssa.Call)
+						return ok && c2.Call.StaticCallee() != nil && an.ShortFunc(c2.Call.StaticCallee()) == "errors.As"
+					},
+					Target: func(i ssa.Instruction) bool {
+						iff, ok := i.(*ssa.If)
+						if !ok {
+							return false
+						}
+						_, c3 := an.IfCond(iff.Block())
+						return c3.Edge(token.NEQ) >= 0 && strings.Contains(argDesc(c3.X), "len") && strings.Contains(argDesc(c3.Y), "len")
+					}}
+				if q.ReachableFrom(an.Point{B: b.Succs[e], Idx: -1}) != nil {
+					okGone = true
+				}
+			}
+			r.Check(okGone, rule, "partitionWatcher → a watched topic that no longer exists counts as a change of its partition count", p.Pos(body.Pos()),
+				"case err == nil, errors.Is(err, UnknownTopicOrPartition): if len(ops) != oParts { return }", "the partition count is only compared when readPartitions returned no error")
 			r.Check(okChange, rule, "partitionWatcher → a change of the partition count ends the generation function", p.Pos(body.Pos()), "if len(ops) != oParts { return }", "not recognised")
 			r.Check(okAs, rule, "partitionWatcher → a lost coordinator connection ends the generation function, a broker error does not", p.Pos(body.Pos()), "errors.As(err, &kafkaError) ? continue : return", "not recognised")
 		}
@@ -396,6 +437,24 @@ func c15RunLoop(p *load.Program, r *oblig.Report) {
 	})
 	okAfter := len(afters) == 1 && strings.HasSuffix(argDesc(afters[0].Common().Args[0]), ".JoinGroupBackoff")
 	r.Check(okAfter, rule, "ConsumerGroup.run → failed joins are retried after the configured back-off", p.Pos(run.Pos()), "backoff = time.After(cg.config.JoinGroupBackoff)", fmt.Sprintf("sites=%d", len(afters)))
+	if len(afters) == 1 {
+		// whether the back-off happens depends on the error only, never on anything else (such as having a member id)
+		var foreign []string
+		errShape := ""
+		an.EachInstr(run, func(ins ssa.Instruction) {
+			if ex, ok := ins.(*ssa.Extract); ok && ex.Index == 1 {
+				if c, isC := ex.Tuple.(*ssa.Call); isC && calleeNamed(&c.Call, "ConsumerGroup", "nextGeneration") {
+					errShape = clean(an.ShapeCanon(ex))
+				}
+			}
+		})
+		for _, c := range selConds(afters[0].(ssa.Instruction)) {
+			if errShape == "" || !strings.Contains(c, errShape) || strings.Contains(strings.ReplaceAll(c, errShape, "err"), "nextGeneration(") {
+				foreign = append(foreign, c)
+			}
+		}
+		r.Check(len(foreign) == 0, rule, "ConsumerGroup.run → the back-off is taken for every failed join", p.Pos(afters[0].Pos()), "conditions on the error of nextGeneration only", strings.Join(foreign, " ∧ "))
+	}
 	// leaveGroup sites: 2, each with the member id returned by the last nextGeneration
 	lcs := callsTo(run, func(cc *ssa.CallCommon) bool { return an.StaticCalleeIs(cc, lg) })
 	okLeave := len(lcs) == 2
